@@ -38,6 +38,7 @@ pub mod c04;
 pub mod c04_span;
 pub mod c11;
 pub mod c11_more;
+pub mod c11_indexer;
 pub mod c17;
 pub mod c17_index;
 
